@@ -554,3 +554,31 @@ Proof.
   toy.
 Qed.
 Print Assumptions C05_noncanonical_handshake_accepted_observation.
+
+(* Configuration plumbing (Model/Config.v, transcribing ConfigBuilder, Config, Discv5::new / Discv5::start,
+   tied to the code by the `glue` correspondence run on real loopback sockets): the parameters the theorems
+   above take as given are the ones the application configured - the value set last through the builder,
+   or the default - at every component they are handed to. *)
+Require Discv5V.Generated.Params Discv5V.Model.Config Discv5V.Proofs.Config.
+Theorem C05_configured_protocol_identity_reaches_the_codec : forall ops v, Discv5V.Model.Config.start_node ops = Some v ->
+  Discv5V.Model.Config.VI (Discv5V.Model.Config.c_protocol_id (Discv5V.Model.Config.nv_built v)) (Discv5V.Model.Config.c_protocol_version (Discv5V.Model.Config.nv_built v)) = Discv5V.Model.Config.configured ops Discv5V.Model.Config.FProtocolIdentity /\
+  Discv5V.Model.Config.VI (Discv5V.Model.Config.c_protocol_id (Discv5V.Model.Config.nv_service v)) (Discv5V.Model.Config.c_protocol_version (Discv5V.Model.Config.nv_service v)) = Discv5V.Model.Config.configured ops Discv5V.Model.Config.FProtocolIdentity /\
+  Discv5V.Model.Config.VI (Discv5V.Model.Config.c_protocol_id (Discv5V.Model.Config.nv_handler v)) (Discv5V.Model.Config.c_protocol_version (Discv5V.Model.Config.nv_handler v)) = Discv5V.Model.Config.configured ops Discv5V.Model.Config.FProtocolIdentity.
+Proof. exact Discv5V.Proofs.Config.effective_protocol_identity. Qed.
+Print Assumptions C05_configured_protocol_identity_reaches_the_codec.
+Theorem C05_configuration_example : exists v, Discv5V.Model.Config.start_node Discv5V.Proofs.Config.example_ops = Some v.
+Proof. destruct Discv5V.Proofs.Config.example_starts as [v [H _]]. exists v. exact H. Qed.
+Print Assumptions C05_configuration_example.
+
+(* The receive task in front of the handler (RecvHandler::handle_inbound, Model/Limiter.v recv_inbound,
+   compared with the real task through the virtual handler on generated datagrams): *)
+Require Discv5V.Model.Limiter Discv5V.Proofs.Limiter.
+Module C05Recv.
+Import Discv5V.Model.Limiter.
+Theorem C05_decoded_packet_reaches_the_handler : forall (f : pfilter) (p : pbl) (expected : list saddr) (src : saddr) (k : pkind) (now : N),
+  enabled f = false -> has_key (sa_ip src) (ban_ips p) = false ->
+  (forall id : N, packet_src_id k = Some id -> has_key id (ban_nodes p) = false) ->
+  recv_inbound f p expected src (Some k) now = (f, p, Deliver, normalise_src src).
+Proof. exact Discv5V.Proofs.Limiter.unfiltered_packet_is_delivered. Qed.
+Print Assumptions C05_decoded_packet_reaches_the_handler.
+End C05Recv.
